@@ -60,7 +60,8 @@ type spec struct {
 	Outside    []string            `json:"outside"`
 	Tiers      map[string]tierSpec `json:"tiers"`
 	ExtraPkgs  []string            `json:"extra_pkgs"`
-	BuildTags  string              `json:"build_tags"`
+	BuildTags  string              `json:"build_tags"`        // build tags for the engine's load AND the native replay binary
+	EngineBuildTags string         `json:"engine_build_tags"` // build tags for the engine's load only (e.g. pure-Go variants of code that is assembly / unsafe by default)
 	NativeTimeoutS int             `json:"native_timeout_s"` // deadline of one native replay (default 60)
 	QuickSkip  []string            `json:"quick_skip"` // harness name substrings only run in the thorough tier
 	NoNative   bool                `json:"no_native"`
@@ -240,6 +241,16 @@ func overlayFiles(id string, s *spec) map[string]string {
 
 // retarget rewrites the package clause of a shared harness file (harness/common/*) to the
 // package it is overlaid into.
+func joinTags(a, b string) string {
+	if a == "" {
+		return b
+	}
+	if b == "" {
+		return a
+	}
+	return a + "," + b
+}
+
 func retarget(src []byte, pkgName string) []byte {
 	lines := strings.SplitN(string(src), "\n", 2)
 	for off := 0; ; {
@@ -466,7 +477,7 @@ func runUnit(id, tier string, s *spec, ts tierSpec, u unitSpec, seed int64, filt
 		Patterns:   append([]string{"./" + sp.Pkg, "./zz_verif/verif"}, sp.ExtraPkgs...),
 		Overlay:    overlay,
 		Env:        goEnv(),
-		BuildTags:  s.BuildTags,
+		BuildTags:  joinTags(s.BuildTags, s.EngineBuildTags),
 		Solver:     firstNonEmpty(os.Getenv("GOSYM_SOLVER"), s.Solver),
 		TimeoutMs:  ts.TimeoutMs,
 		Seed:       seed,
